@@ -60,6 +60,21 @@ def cases(shard, rnd):
             for ch in gf.CHANNELS:
                 yield {'index': idx, 'vals': gf.assignment(rnd, spec),
                        'ch': ch, 'why': 'channel'}
+            # just past the limits: the library may refuse these, but what
+            # it accepts must still come back unchanged
+            for n, t, _ in spec.args:
+                if gf.constraint_of(spec, n)[0] == refspec.FIXED:
+                    continue
+                over = {'shortstr': ['q' * 256, 'é' * 128, '€' * 86,
+                                     'x' * 300],
+                        'octet': [256, -1], 'short': [65536, -1],
+                        'long': [2**32, -1], 'longlong': [2**63, -2**63 - 1],
+                        }.get(t, [])
+                for v in over:
+                    vals = gf.assignment(rnd, spec)
+                    vals[n] = v
+                    yield {'index': idx, 'vals': vals, 'ch': 1,
+                           'why': 'probe:' + n, 'probe': True}
         for _ in range(shard['n_random']):
             yield {'index': idx,
                    'vals': gf.assignment(rnd, spec, big=rnd.random() < 0.02),
@@ -91,13 +106,32 @@ def run_case(case, rec):
         return
     common.set_legacy(False)
     c = call(cls, **vals)
+    if not c.ok and case.get('probe'):
+        rec.count('probe_refused')
+        return
     if not c.ok:
         rec.count('refused_at_construct')
         rec.note('constructor of %s refused a valid assignment: %s'
                  % (spec.name, c.describe()))
         return
     obj = c.value
+    if spec.args and rec.evaluations % 3 == 0:
+        # the caller gets one argument wrong, marshal refuses, the caller
+        # repairs the attribute and sends the SAME object
+        n_, t_, _ = spec.args[common.RND.randrange(len(spec.args))]
+        good = getattr(obj, n_)
+        bad = {'bit': 'yes', 'table': 'not-a-table', 'shortstr': 7,
+               'longstr': 7}.get(t_, 'NaN')
+        try:
+            setattr(obj, n_, bad)
+            common.lib_marshal(obj, ch)
+        finally:
+            setattr(obj, n_, good)
+        rec.count('failed_marshal_then_repair')
     m = common.lib_marshal(obj, ch)
+    if not m.ok and case.get('probe'):
+        rec.count('probe_refused')
+        return
     if not m.ok:
         leaf = None
         for n, t, _ in spec.args:
